@@ -371,7 +371,8 @@ func (x *Exec) ifaceFacts(st *State, iv Value, dyn Value) {
 		}
 	}
 	if codeLeaf != nil && codeLeaf.S == x.m().ixSort() || codeLeaf != nil {
-		x.vc.assume(Eq(x.errcode(iv.X, codeLeaf.S), codeLeaf))
+		// guarded by reachability: allocations on exclusive paths share reference values
+		x.vc.assume(Implies(st.Reach, Eq(x.errcode(iv.X, codeLeaf.S), codeLeaf)))
 	}
 }
 
@@ -508,6 +509,17 @@ func (x *Exec) valuesEqual(fr *Frame, st *State, a, b Value, pos token.Pos) *Ter
 	case KScalar, KArray, KMap:
 		if a.X.S != b.X.S {
 			unsupported("comparison of different sorts")
+		}
+		if a.K == KArray && a.T != nil {
+			// Go compares the N elements; SMT array equality would also compare the
+			// (meaningless) indices outside 0..N-1
+			if at, ok := a.T.Underlying().(*types.Array); ok && at.Len() <= 64 {
+				c := TTrue
+				for k := int64(0); k < at.Len(); k++ {
+					c = And(c, Eq(Select(a.X, m.ix(k)), Select(b.X, m.ix(k))))
+				}
+				return c
+			}
 		}
 		return Eq(a.X, b.X)
 	case KIface:
